@@ -4,8 +4,10 @@ import (
 	"encoding/json"
 	"fmt"
 	"os"
+	"os/exec"
 	"sort"
 	"strconv"
+	"strings"
 	"time"
 
 	"verifsim/engine"
@@ -80,9 +82,9 @@ func init() {
 		Store: storeWorker,
 		Parts: func(tier string, seed uint64) []part {
 			if tier == "quick" {
-				return []part{{Name: "store", Count: int(envInt("VERIF_C04_RECORDS", 2800))}, {Name: "short", Count: int(envInt("VERIF_C04_SHORT", 192))}, {Name: "history", Count: 4}, {Name: "scale", Count: props.ScaleJobs()}}
+				return []part{{Name: "store", Count: int(envInt("VERIF_C04_RECORDS", 2800))}, {Name: "short", Count: int(envInt("VERIF_C04_SHORT", 192))}, {Name: "history", Count: 4}, {Name: "scale", Count: props.ScaleJobs()}, {Name: "deep", Count: props.DeepCount()}}
 			}
-			return []part{{Name: "store", Count: int(envInt("VERIF_C04_RECORDS", 12000))}, {Name: "short", Count: int(envInt("VERIF_C04_SHORT", 200))}, {Name: "history", Count: 8}, {Name: "scale", Count: props.ScaleJobs()}}
+			return []part{{Name: "store", Count: int(envInt("VERIF_C04_RECORDS", 12000))}, {Name: "short", Count: int(envInt("VERIF_C04_SHORT", 200))}, {Name: "history", Count: 8}, {Name: "scale", Count: props.ScaleJobs()}, {Name: "deep", Count: props.DeepCount()}}
 		},
 		Rule: "evaluations = decodes. For every generated valid record (type x configuration from the world's families, canonical encoding) the store applies EVERY single fault of each class - truncation at every byte, every single-bit flip, every byte forced to 00/7F/80/FF, maximal varint and zero block inserted at / written over every offset, 1-4 byte blocks dropped and duplicated at every offset, prefix-of-A + suffix-of-B splices - and hands each damaged record to every reader (Unmarshal into the writer's type, into version siblings and unrelated types, Descriptor-driven JSON) under three presentations (exact capacity, spare capacity holding the previous record, spare capacity holding FF); plus unrelated short blocks (all strings of length <= 1, every 7th (quick) or every (thorough) 2-byte string, 3-4 bytes over a boundary alphabet) per reader type. distinct_nontrivial = distinct (damaged input, reader, mode) triples, each of which differs from the undamaged record by construction. Complete over the single-fault classes for the records generated; the records themselves are sampled",
 		Assumptions: []string{
@@ -253,7 +255,34 @@ func runReplay(path string) int {
 	}
 	fmt.Printf("replaying %s: %s\n", path, rf.Violation.String())
 	if rf.Engine == "store" {
-		return props.ReplayStore(rf)
+		if os.Getenv("VERIF_REPLAY_CHILD") == "1" {
+			return props.ReplayStore(rf)
+		}
+		// in a child process: the violation may be a fatal error of the runtime
+		cmd := exec.Command(os.Args[0], "replay", path)
+		cmd.Env = append(os.Environ(), "VERIF_REPLAY_CHILD=1")
+		var eb headBuffer
+		cmd.Stdout, cmd.Stderr = os.Stdout, &eb
+		err := cmd.Run()
+		if err == nil {
+			return 0
+		}
+		if ee, ok := err.(*exec.ExitError); ok && ee.ExitCode() == 1 {
+			return 1
+		}
+		st := eb.String()
+		for _, key := range []string{"fatal error:", "unexpected signal", "panic:", "runtime: out of memory"} {
+			if i := strings.Index(st, key); i >= 0 {
+				line := st[i:]
+				if j := strings.IndexByte(line, '\n'); j > 0 {
+					line = line[:j]
+				}
+				fmt.Printf("VIOLATION property=%s replay=%s\n  reproduced: the decoding process died: %s\n", rf.Property, path, line)
+				return 1
+			}
+		}
+		fmt.Fprintln(os.Stderr, "replay child failed:", err, tail(st, 2000))
+		return 2
 	}
 	if rf.Engine == "echo" && rf.Echo != nil {
 		e := rf.Echo
@@ -347,3 +376,19 @@ func runSelftest(prop string) int {
 }
 
 var _ = strconv.Itoa
+
+// headBuffer keeps the first 256 KB written to it (a crash report starts with
+// its reason and goes on for megabytes).
+type headBuffer struct{ b []byte }
+
+func (h *headBuffer) Write(p []byte) (int, error) {
+	if room := 256<<10 - len(h.b); room > 0 {
+		if len(p) < room {
+			room = len(p)
+		}
+		h.b = append(h.b, p[:room]...)
+	}
+	return len(p), nil
+}
+
+func (h *headBuffer) String() string { return string(h.b) }
